@@ -365,3 +365,17 @@ Proof.
     exfalso. destruct (step_writes_key fx a st z d IH E) as (i & r' & rs & -> & Hz & _).
     cbn in Ha. rewrite Hz, zone_eqb_refl in Ha. discriminate.
 Qed.
+
+(* what the derived denial stores (RFC 8020 cut, RFC 8198 proof index) file under a request tree ends within the
+   granted lease of every parent-side referral that tree learned anything through - whatever the proof's own TTL,
+   for every history *)
+Lemma derived_dies_fixed : forall acts st, st = run true acts st_init ->
+  forall tree now ttl l, In l (mt_lin (st_meta st tree)) ->
+  derived_end st tree now ttl <= l_spec l /\ derived_end st tree now ttl <= now + ttl /\
+  l_spec l = l_code l /\ l_code l <= l_obs l + l_ttl l.
+Proof.
+  intros acts st -> tree now ttl l Hl. pose proof (reachable_Inv true acts) as HI.
+  destruct (inv_meta _ _ HI tree l Hl) as [H1 H2]. unfold derived_end.
+  destruct (mt_cut (st_meta (run true acts st_init) tree)) as [[tc kc]|]; cbn in H1; [|contradiction].
+  cbn [cut_time option_map fst]. rewrite (wf_fixed_spec l H2). repeat split; try lia. apply H2.
+Qed.
